@@ -713,7 +713,7 @@ pub async fn run_client(spec: ClientSpec) {
                 }
             }
         }
-        rec.done_seq = simcore::log::world(|| format!("client {} step {} end {:?}", id, idx, rec.outcome));
+        rec.done_seq = simcore::log::world(|| format!("client {} step {} end {:?} recv {}{}", id, idx, rec.outcome, rec.msgs.iter().map(|m| m.ty as char).collect::<String>(), rec.msgs.iter().filter(|m| m.ty == b'E').map(|m| format!(" E[{}]", String::from_utf8_lossy(&m.body).replace('\0', "|"))).collect::<String>()));
         rec.done_us = simcore::clock::now_us();
         push_step(id, rec);
     }
